@@ -79,12 +79,15 @@ FilterCnt(rw, fr) == [r \in Rows |-> Wt(rw[r] \cap rw[fr])]
 Rec(op, a, b, R, S, ch, res, rw, ov) ==
   [op |-> op, a |-> a, b |-> b, R |-> R, S |-> S, ch |-> ch, res |-> res, cnt |-> Cnt(rw), ov |-> ov]
 
-Write(op, a, b, R, S, ch, rw2) ==
-  LET ov2 == over \/ ~Fits(rw2)
+(* `during` = the rows that may be non-empty at some moment while the step is carried out *)
+WriteD(op, a, b, R, S, ch, rw2, during) ==
+  LET ov2 == over \/ ~Fits(rw2) \/ Cardinality(during) > size
   IN /\ rows' = rw2
      /\ over' = ov2
      /\ hist' = Append(hist, Rec(op, a, b, R, S, ch, <<>>, rw2, ov2))
      /\ UNCHANGED <<kind, size, mutex>>
+
+Write(op, a, b, R, S, ch, rw2) == WriteD(op, a, b, R, S, ch, rw2, {})
 
 Query(op, a, b, R, res) ==
   /\ hist' = Append(hist, Rec(op, a, b, R, {}, FALSE, res, rows, over))
@@ -119,7 +122,10 @@ Init ==
 
 On(op) == op \in Ops
 
-Set(r, c)   == On("Set")   /\ Write("Set", r, c, {}, {}, c \notin rows[r], SetBits({r}, {c}))
+(* A Set of abstract column c is one Set per concrete column of its block: on a mutex field the
+   columns leave their old row one by one, so the old row and row r are both non-empty meanwhile. *)
+Set(r, c)   == On("Set")   /\ WriteD("Set", r, c, {}, {}, c \notin rows[r], SetBits({r}, {c}),
+                                      IF mutex THEN NonEmpty(rows) \cup {r} ELSE {})
 Clear(r, c) == On("Clear") /\ Write("Clear", r, c, {}, {}, c \in rows[r], ClrBits({r}, {c}))
 ClearRow(r) == On("ClearRow") /\ Write("ClearRow", r, 0, {}, {}, rows[r] # {}, ClrBits({r}, Cols))
 Store(r1, r2) ==
